@@ -28,16 +28,66 @@ pub trait Datamodel {
     /// ghost: ids of the executable-content blocks executed so far
     spec fn log(&self) -> Seq<u32>;
 
+    /// ghost: (state, set_data) of every initializeDataModel call so far
+    spec fn init_log(&self) -> Seq<(u32, bool)>;
+
     fn gd(&mut self) -> (r: &mut GlobalData)
         ensures
             *r == old(self).gview(),
             final(self).gview() == *final(r),
-            final(self).log() == old(self).log();
+            final(self).log() == old(self).log(),
+            final(self).init_log() == old(self).init_log();
+
+    /// gives the <data> elements of a state their values (oracle): touches the data store only
+    fn initializeDataModel(&mut self, fsm: &mut Fsm, state: StateId, set_data: bool)
+        ensures
+            *final(fsm) == *old(fsm),
+            final(self).log() == old(self).log(),
+            final(self).init_log() == old(self).init_log().push((state, set_data)),
+            frame_core(old(self).gview(), final(self).gview()),
+            final(self).gview().child_sessions == old(self).gview().child_sessions;
+
+    /// evaluates <param> elements into name/value pairs (oracle); errors are raised as events
+    fn evaluate_params(&mut self, params: &Option<Vec<Parameter>>, values: &mut Vec<ParamPair>)
+        ensures
+            final(self).log() == old(self).log(),
+            final(self).init_log() == old(self).init_log(),
+            frame_core(old(self).gview(), final(self).gview()),
+            final(self).gview().child_sessions == old(self).gview().child_sessions;
+
+    /// read-only view of the session's global data (models `global_s().lock().unwrap()`)
+    fn gs(&self) -> (r: &GlobalData)
+        ensures
+            *r == self.gview();
 
     /// runs one block of executable content (oracle): may raise events and change the data store only
     fn executeContent(&mut self, fsm: &Fsm, contentId: ExecutableContentId) -> (r: bool)
         ensures
             final(self).log() == old(self).log().push(contentId),
+            final(self).init_log() == old(self).init_log(),
             frame_core(old(self).gview(), final(self).gview()),
             final(self).gview().child_sessions == old(self).gview().child_sessions;
+}
+
+/// R19: the expression `datamodel.evaluate_content(c).map(|data| data.lock().unwrap().clone())` (Option::map over a
+/// closure that locks a DataArc) is routed through this wrapper whose real body is that very expression.
+/// Assumed (A8): evaluating <content> touches the data store and may raise events, nothing else.
+#[verifier::external_body]
+pub fn verif_evaluate_content_value(datamodel: &mut dyn Datamodel, content: &Option<CommonContent>) -> (r: Option<Data>)
+    ensures
+        final(datamodel).log() == old(datamodel).log(),
+        final(datamodel).init_log() == old(datamodel).init_log(),
+        frame_core(old(datamodel).gview(), final(datamodel).gview()),
+        final(datamodel).gview().child_sessions == old(datamodel).gview().child_sessions,
+{
+    unimplemented!()
+}
+
+/// R4b: `format!("{}{}", prefix, id)` in Event::new -> concatenation (the event name matters for the contracts)
+#[verifier::external_body]
+pub fn verif_concat(a: &str, b: &str) -> (r: String)
+    ensures
+        r@ == a@ + b@,
+{
+    unimplemented!()
 }
